@@ -189,9 +189,11 @@ fn check_delete(mask: u32) -> Option<Witness> {
     if mask & 16 != 0 { e.q(&format!("WITH {CTE}")); }
     e.q("DELETE FROM `t`");
     if mask & 1 != 0 { e.q(" WHERE `c` > 1"); }
+    // MySQL writes no RETURNING; Postgres' DELETE / UPDATE has no ORDER BY / LIMIT, so its grammar fixes no relative position: the shared renderer
+    // follows SQLite's (RETURNING first, C07)
+    if mask & 8 != 0 { e.both("", " RETURNING \"c\""); }
     if mask & 2 != 0 { e.q(" ORDER BY `c` ASC"); }
     if mask & 4 != 0 { e.q(" LIMIT 3"); }
-    if mask & 8 != 0 { e.both("", " RETURNING \"c\""); }
     verdict(format!("delete mask={mask}"), &e, d.to_string(MysqlQueryBuilder), d.to_string(PostgresQueryBuilder))
 }
 
@@ -229,9 +231,9 @@ fn check_update(nfrom: usize, mask: u32) -> Option<Witness> {
         e.both(if nfrom == 1 { " SET `t`.`c` = 1, `t`.`d` = 2" } else { " SET `c` = 1, `d` = 2" }, " SET \"c\" = 1, \"d\" = 2");
         if nfrom == 1 { e.both("", " FROM \"f1\""); }
         if mask & 1 != 0 { e.both(if nfrom == 1 { "" } else { " WHERE `c` > 1" }, " WHERE \"c\" > 1"); }
+        if mask & 8 != 0 { e.both("", " RETURNING \"c\""); }
         if mask & 2 != 0 { e.q(" ORDER BY `c` ASC"); }
         if mask & 4 != 0 { e.q(" LIMIT 3"); }
-        if mask & 8 != 0 { e.both("", " RETURNING \"c\""); }
         return verdict(label, &e, my, pg);
     }
     None
